@@ -85,7 +85,11 @@ func Shrink(spec *RunSpec, switches []Switch, fails func(*RunSpec) bool, budget 
 			return ch
 		},
 		func(c *RunSpec) bool { ch := c.Kernel.Pool.Poison; c.Kernel.Pool.Poison = false; return ch },
-		func(c *RunSpec) bool { ch := c.Kernel.Pool.DropPerMille != 0; c.Kernel.Pool.DropPerMille = 0; return ch },
+		func(c *RunSpec) bool {
+			ch := c.Kernel.Pool.DropPerMille != 0
+			c.Kernel.Pool.DropPerMille = 0
+			return ch
+		},
 		func(c *RunSpec) bool {
 			ch := c.Kernel.Map.Order != "asc"
 			c.Kernel.Map.Order = "asc"
@@ -101,8 +105,18 @@ func Shrink(spec *RunSpec, switches []Switch, fails func(*RunSpec) bool, budget 
 		func(c *RunSpec) bool { ch := !c.Engine.ReadFileFS; c.Engine.ReadFileFS = true; return ch },
 		func(c *RunSpec) bool { ch := !c.Engine.StatFS; c.Engine.StatFS = true; return ch },
 		func(c *RunSpec) bool { ch := c.Engine.ReadDirFS; c.Engine.ReadDirFS = false; return ch },
-		func(c *RunSpec) bool { ch := c.Engine.Less; c.Engine.Less = false; return ch },
-		func(c *RunSpec) bool { ch := c.Engine.Components; c.Engine.Components = false; return ch },
+	}
+	hasExpect := false
+	for _, op := range cur.Ops {
+		if op.Expect != nil {
+			hasExpect = true
+		}
+	}
+	if !hasExpect {
+		// engine options change what a program means; not touched when the oracle is the generator's model of the program
+		simpl = append(simpl,
+			func(c *RunSpec) bool { ch := c.Engine.Less; c.Engine.Less = false; return ch },
+			func(c *RunSpec) bool { ch := c.Engine.Components; c.Engine.Components = false; return ch })
 	}
 	for _, f := range simpl {
 		c := cloneSpec(cur)
@@ -140,7 +154,14 @@ func Shrink(spec *RunSpec, switches []Switch, fails func(*RunSpec) bool, budget 
 		})
 	}
 
-	// 6. drop files, then lines of the remaining files (bodies are one snippet per line)
+	// 6. drop files, then lines of the remaining files (bodies are one snippet per line).
+	// Not when the oracle rests on the generator's knowledge of the program (Expect): changing the
+	// program would change what is expected of it.
+	for _, op := range cur.Ops {
+		if op.Expect != nil {
+			return cur, used
+		}
+	}
 	ddmin(len(cur.Files), func(keep []int) bool {
 		c := cloneSpec(cur)
 		c.Files = nil
